@@ -1,6 +1,6 @@
 #include "c08.hpp"
 using namespace c08;
-MC_SUBCHECK(t3_poly_j)
+MC_SUBCHECK(t3_poly)
 {
   c08::run<Poly<2>, D1, V3, VX>();
 }
